@@ -157,7 +157,7 @@ def run(tier):
                        "(enumerated by TLC from Session.tla, replayed with a scheduling lexer), random schedules of long "
                        "programs, free-running threads; a case is one schedule")
     plans = [([0, 1], 5), ([2, 3], 5), ([0, 1, 2], 2)] if tier == "quick" else \
-        [([0, 1], 7), ([2, 3], 6), ([0, 3], 6), ([0, 1, 2], 4), ([0, 1, 2, 3], 3)]
+        [([0, 1], 7), ([2, 3], 7), ([0, 3], 6), ([0, 1, 2], 3), ([0, 1, 2, 3], 1)]
     total = 0
     for idxs, ntok in plans:
         progs = [truncate(PROGS[i], ntok) for i in idxs]
